@@ -475,6 +475,13 @@ var osFuncs = map[string]string{
 	"Open": "Open", "Create": "Create", "OpenFile": "OpenFile", "ReadFile": "ReadFile",
 	"WriteFile": "WriteFile", "Exit": "Exit", "Stat": "Stat", "File": "File",
 	"CreateTemp": "CreateTemp", "Rename": "Rename", "Remove": "Remove", "TempDir": "TempDir",
+	"Getpid": "Getpid", "Getppid": "Getppid", "Hostname": "Hostname",
+}
+
+var randFuncs = map[string]string{
+	"Intn": "RandIntn", "Int": "RandInt", "Int63": "RandInt63", "Int31": "RandInt31", "Uint32": "RandUint32", "Uint64": "RandUint64",
+	"Float64": "RandFloat64", "Int63n": "RandInt63n", "Int31n": "RandInt31n", "Perm": "RandPerm", "Shuffle": "RandShuffle", "Seed": "RandSeed",
+	"IntN": "RandIntn", "Int64": "RandInt63", "Int64N": "RandInt63n", "N": "",
 }
 
 var syncTypes = map[string]string{
@@ -586,6 +593,16 @@ func (fc *fileCtx) visit(n ast.Node, parent ast.Node, d int) {
 					fc.markRewritten(local)
 					fc.count("os." + n.Sel.Name)
 				}
+			}
+		case "math/rand", "math/rand/v2":
+			if r, ok := randFuncs[n.Sel.Name]; ok && r != "" {
+				fc.replace(n.Pos(), n.End(), "simrt."+r, d, false)
+				fc.markRewritten(local)
+				fc.count("rand." + n.Sel.Name)
+			} else if n.Sel.Name == "New" || n.Sel.Name == "NewSource" || n.Sel.Name == "Rand" || n.Sel.Name == "Source" {
+				// explicitly seeded generators are deterministic by themselves
+			} else {
+				fc.warn(n.Pos(), "math/rand."+n.Sel.Name+" left outside the seam")
 			}
 		case "io":
 			switch n.Sel.Name {
